@@ -69,9 +69,37 @@ func checkC11(c *Ctx) {
 		}
 	}
 	if table == "" {
+		// a table that keeps SEVERAL stream records per key (a slice of them) is not a restructuring of "one listening
+		// stream per session" but its negation: whatever is sent to the session is then written once per stream
+		for _, a := range accs {
+			m, ok := a.Type.Underlying().(*types.Map)
+			if !ok {
+				continue
+			}
+			sl, ok := m.Elem().Underlying().(*types.Slice)
+			if !ok {
+				continue
+			}
+			pt, ok := sl.Elem().(*types.Pointer)
+			if !ok {
+				continue
+			}
+			st, ok := pt.Elem().Underlying().(*types.Struct)
+			if !ok {
+				continue
+			}
+			for i := 0; i < st.NumFields(); i++ {
+				if isCancelFunc(st.Field(i).Type()) {
+					c.R.Violate("R-one-stream-per-session", "shape of "+a.Field, c.Pos(a.Pos),
+						sprintf("%s maps a session to a LIST of stream records: a newer listening stream no longer replaces the older one, so a notification or server request addressed to the session is written to each of its streams — delivered more than once — and the older stream is never told to end", a.Field))
+					return
+				}
+			}
+		}
 		c.R.Break("anchor not found: map field whose values point to a record with a context.CancelFunc (listening-stream table)")
 		return
 	}
+	c.R.Hold("R-one-stream-per-session", "shape of "+table, "", "the table maps a session to one stream record")
 	c.R.Extra["stream_table"] = table
 	_ = tableOwner
 
